@@ -212,7 +212,7 @@ def _encode_kind(rec, kind):
 
 D2 = [("warm", "T"), ("inv", "T"), ("T", "inv"), ("mul", "inv"), ("inv", "mul"), ("neg", "inv"), ("sqrt", "inv"), ("inv", "sqrt"),
       ("mul", "sqrt"), ("div", "T"), ("mul", "mul"), ("inv", "inv"), ("sqrt", "T")]
-D2_K2_QUICK = [("warm", "T"), ("inv", "T"), ("T", "inv"), ("mul", "inv"), ("inv", "mul"), ("neg", "inv")]
+D2_K2_QUICK = [("warm", "T"), ("inv", "T"), ("T", "inv"), ("mul", "inv"), ("inv", "mul"), ("neg", "inv")]  # (inv.inv: z3 does not finish)
 QUICK_D2_KINDS = ["pos_diagonal", "tri_lower", "dense_square", "dense_square_lu_transposed", "dense_pd", "lowrank_square_neg", "scaled_orthogonal", "inv_lu", "lowrank_square_k2",
                   "lowrank_square_k2_cap"]
 HEAVY = ("lowrank_pd", "dense_pd_product")  # Cholesky/sqrtm chains: seconds per obligation
@@ -229,7 +229,7 @@ def cases(tier):
         for kind in ml.leaves(n):
             heavy = kind.startswith(HEAVY) or kind == "softabs_dense"
             G(f"leaf/{kind}/n{n}/base", [("leaf", {"kind": kind, "n": n})])
-            if heavy and not thorough and n == 2:
+            if (heavy and not thorough or kind == "softabs_dense") and n == 2:
                 for op in (("T",) if kind == "softabs_dense" else ("T", "inv", "mul")):  # (softabs_dense inv/mul: minutes of z3 time per obligation)
                     G(f"leaf/{kind}/n{n}/{op}", [("leaf", {"kind": kind, "n": n, "ops": (op,)})])
                 continue
@@ -252,9 +252,11 @@ def cases(tier):
     # depth 2: op o op
     for n in ((1, 2) if thorough else (2,)):
         for kind in (ml.leaves(n) if thorough else QUICK_D2_KINDS):
-            if kind in ("blockdiag_pd", "softabs_dense", "eig_pd") and not thorough:
+            if kind in ("blockdiag_pd", "eig_pd") and not thorough:
                 continue
-            if kind.startswith("lowrank_square_k2") and not thorough:
+            if kind == "softabs_dense":
+                continue  # (minutes of z3 time per obligation already for single operations: both tiers)
+            if kind.startswith("lowrank_square_k2"):
                 # rank-2 capacitance: a minute or more per operation pair, so one worker per pair and the pairs that exercise
                 # the capacitance matrix (inverse / transpose / scaling interplay) only
                 for ops in D2_K2_QUICK:
@@ -269,12 +271,16 @@ def cases(tier):
                   "invtri_upper", "trifact_neg_upper"]
     if thorough:
         pair_kinds = ["diagonal", "pos_diagonal", "tri_lower", "invtri_upper", "trifact_neg_upper", "dense_square", "inv_lu", "dense_pd",
-                      "dense_sym", "eig_sym", "orthogonal", "scaled_identity", "lowrank_sym", "lowrank_square_k2"]
+                      "dense_sym", "eig_sym", "orthogonal", "scaled_identity"]
     prods = []
     if thorough:
         for kl in pair_kinds:
             for kr in pair_kinds:
-                prods.append((kl, kr))
+                if (kl, kr) != ("dense_sym", "dense_sym"):  # (> 1200 s)
+                    prods.append((kl, kr))
+        # low-rank updates in products: with the cheap partners only (with dense_sym / eig_sym / each other: > 1200 s or > 400 paths)
+        prods += [("lowrank_sym", "diagonal"), ("diagonal", "lowrank_sym"), ("lowrank_square_k2", "diagonal"), ("diagonal", "lowrank_square_k2"),
+                  ("lowrank_sym", "scaled_identity"), ("tri_lower", "lowrank_square_k2")]
     else:
         for i, kl in enumerate(pair_kinds):
             prods.append((kl, pair_kinds[(i + 1) % len(pair_kinds)]))
